@@ -147,6 +147,38 @@ def after_delete_case(item):
     return dict(ok=True)
 
 
+def sources_case(item):
+    """sources(...) after n existing iterable resources: unique names, every stream with its own descriptor, separate files"""
+    from dataflows import Flow
+    import dataflows as DF
+    import tempfile, shutil
+    setup_repo()
+    n, k = item['n'], item['k']
+    prev = [[dict(p=i * 10 + j) for j in range(2)] for i in range(n)]
+    new = [[{('s%d' % i): 100 * i + j} for j in range(2)] for i in range(k)]
+    root = tempfile.mkdtemp(prefix='c16s-', dir=tlc.WORK_ROOT)
+    try:
+        with contextlib.redirect_stdout(io.StringIO()):
+            res, dp, _ = Flow(*prev, DF.sources(*new), DF.dump_to_path(root + '/o')).results()
+        names = [r['name'] for r in dp.descriptor['resources']]
+        if len(set(names)) != len(names):
+            return dict(ok=False, why='resource names are not unique after sources()', got=names)
+        if res != prev + new:
+            return dict(ok=False, why='rows after sources() differ', got=res)
+        fields = [[f['name'] for f in r['schema']['fields']] for r in dp.descriptor['resources']]
+        want = [['p']] * n + [['s%d' % i] for i in range(k)]
+        if fields != want:
+            return dict(ok=False, why='descriptors after sources() are not paired with their rows', got=fields, want=want)
+        paths = [r['path'] for r in dp.descriptor['resources']]
+        if len(set(paths)) != len(paths) or not all(os.path.exists(os.path.join(root, 'o', p_)) for p_ in paths):
+            return dict(ok=False, why='dumped files of the appended sources collide', got=paths)
+        return dict(ok=True)
+    except Exception as e:
+        return dict(ok=False, why='raised %s: %s' % (type(e).__name__, str(e)[:200]))
+    finally:
+        shutil.rmtree(root, ignore_errors=True)
+
+
 def run():
     rep = Report(PROP)
     t = rep.tier
@@ -189,6 +221,15 @@ def run():
         if not out['ok']:
             rep.violation(it, dict(program='%d iterable sources, delete_resource(%d), one more iterable source' % (it['n'], it['delete']),
                                    **{k: v for k, v in out.items() if k != 'ok'}), category='append-after-delete/%s' % out['why'][:40])
+    sc = [dict(n=n, k=k) for n in (0, 1, 2) for k in (1, 2, 3)]
+    for it, out in zip(sc, pmap(sources_case, sc, procs=1)):
+        if '__harness_error__' in out:
+            raise tlc.MachineryError('harness error: ' + out['__harness_error__'])
+        rep.count(1, traces=1)
+        rep.mark_distinct(dict(sources=it))
+        if not out['ok']:
+            rep.violation(it, dict(program='%d iterable resources, then sources() of %d lists' % (it['n'], it['k']), **{k_: v for k_, v in out.items() if k_ != 'ok'}),
+                          category='sources/%s' % out['why'][:40])
     rep.assumptions += ['concatenate on a consecutive non-empty selection whose rows all have a mapped non-null value (documented assertions)',
                         'selections are given as lists of names here; the selector forms are C10']
     return rep.finish(exhaustive=(t == 'thorough'))
